@@ -21,6 +21,22 @@ package types
 //@   return k is *rsa.PrivateKey ==> k.(*rsa.PrivateKey) != nil
 //@ }
 
+// Key unwrap succeeds exactly when: a certificate is present, a named recipient certificate equals it, the wrapped
+// key is base64, the private key is RSA, the digest identifier is known, the transport is OAEP (either identifier)
+// or PKCS#1 v1.5 and the RSA operation succeeds, and the unwrapped key has an AES key length.
+//@ pure func UnwrappedKey(ek *EncryptedKey, cert *tls.Certificate) []byte {
+//@   return IsOAEP(ek.EncryptionMethod.Algorithm) ? oaepOf(DigestAlg(ek), cert.PrivateKey.(*rsa.PrivateKey), b64dec(ek.CipherValue))
+//@        : pkcs1Of(cert.PrivateKey.(*rsa.PrivateKey), b64dec(ek.CipherValue))
+//@ }
+//@ pure func UnwrapOK(ek *EncryptedKey, cert *tls.Certificate) bool {
+//@   return len(cert.Certificate) >= 1
+//@       && (ek.X509Data != "" ==> b64ok(ek.X509Data) && bytesEq(cert.Certificate[0], b64dec(ek.X509Data)))
+//@       && b64ok(ek.CipherValue) && cert.PrivateKey is *rsa.PrivateKey && DigestAlg(ek) != 0
+//@       && (   (IsOAEP(ek.EncryptionMethod.Algorithm) && oaepOK(DigestAlg(ek), cert.PrivateKey.(*rsa.PrivateKey), b64dec(ek.CipherValue)))
+//@           || (ek.EncryptionMethod.Algorithm == MethodRSAv1_5 && pkcs1OK(cert.PrivateKey.(*rsa.PrivateKey), b64dec(ek.CipherValue))))
+//@       && (len(UnwrappedKey(ek, cert)) == 16 || len(UnwrappedKey(ek, cert)) == 24 || len(UnwrappedKey(ek, cert)) == 32)
+//@ }
+
 //@ func (ek *EncryptedKey) DecryptSymmetricKey(cert *tls.Certificate) (blk cipher.Block, err error)
 //@   requires ek != nil && cert != nil
 //@   requires keyok: KeyOK(cert.PrivateKey)
@@ -39,6 +55,8 @@ package types
 //@        && aesKeyOf(blk) == pkcs1Of(cert.PrivateKey.(*rsa.PrivateKey), b64dec(ek.CipherValue))
 //@   ensures [C11] transport: err == nil ==> IsOAEP(ek.EncryptionMethod.Algorithm) || ek.EncryptionMethod.Algorithm == MethodRSAv1_5
 //@   ensures [C11] aes: err == nil ==> blockSizeOf(blk) == 16
+//@   ensures [C11] total: err == nil <==> UnwrapOK(ek, cert)
+//@   ensures [C11] key: err == nil ==> blk == aesBlock(UnwrappedKey(ek, cert))
 
 //@ func debugKeyFp(keyBytes []byte) (result string)
 //@   safety [C09]
@@ -53,6 +71,23 @@ package types
 //@ pure func IsCBC(alg string) bool {
 //@   return alg == MethodAES128CBC || alg == MethodAES256CBC || alg == MethodTripleDESCBC
 //@ }
+// Functional contract per advertised method (relative to the cipher contracts): decryption succeeds exactly when the
+// ciphertext is base64, the key unwraps, and the AEAD opens / the CBC padding is possible; the output is the opened
+// plaintext / the unpadded CBC plaintext. Stated for the inline and for the detached EncryptedKey.
+//@ pure func GCMPlain(ea *EncryptedAssertion, key []byte) []byte {
+//@   return gcmOpenOf(gcmOf(aesBlock(key)), b64dec(ea.CipherValue)[0:12], b64dec(ea.CipherValue)[12:])
+//@ }
+//@ pure func GCMOK(ea *EncryptedAssertion, key []byte) bool {
+//@   return b64ok(ea.CipherValue) && len(b64dec(ea.CipherValue)) >= 12
+//@       && gcmOpenOK(gcmOf(aesBlock(key)), b64dec(ea.CipherValue)[0:12], b64dec(ea.CipherValue)[12:])
+//@ }
+//@ pure func CBCTrimmed(ea *EncryptedAssertion, key []byte) []byte {
+//@   return trimRight(cbcDecrypt(cbcOf(aesBlock(key), b64dec(ea.CipherValue)[0:16]), b64dec(ea.CipherValue)[16:]), "\x00")
+//@ }
+//@ pure func CBCOK(ea *EncryptedAssertion, key []byte) bool {
+//@   return b64ok(ea.CipherValue) && len(b64dec(ea.CipherValue)) % 16 == 0 && len(b64dec(ea.CipherValue)) >= 32
+//@       && len(CBCTrimmed(ea, key)) > 0 && int(CBCTrimmed(ea, key)[len(CBCTrimmed(ea, key)) - 1]) <= len(CBCTrimmed(ea, key))
+//@ }
 //@ func (ea *EncryptedAssertion) DecryptBytes(cert *tls.Certificate) (out []byte, err error)
 //@   requires ea != nil && cert != nil
 //@   requires keyok: KeyOK(cert.PrivateKey)
@@ -61,6 +96,17 @@ package types
 //@   assigns nothing
 //@   ensures [C11] method: err == nil ==> IsGCM(ea.EncryptionMethod.Algorithm) || IsCBC(ea.EncryptionMethod.Algorithm)
 //@   ensures [C11] data: err == nil ==> b64ok(ea.CipherValue)
+//@   ensures [C11] gcm.inline: IsGCM(ea.EncryptionMethod.Algorithm) && ea.EncryptedKey.CipherValue != "" ==>
+//@        (err == nil <==> b64ok(ea.CipherValue) && UnwrapOK(&ea.EncryptedKey, cert) && GCMOK(ea, UnwrappedKey(&ea.EncryptedKey, cert)))
+//@        && (err == nil ==> out == GCMPlain(ea, UnwrappedKey(&ea.EncryptedKey, cert)))
+//@   ensures [C11] gcm.detached: IsGCM(ea.EncryptionMethod.Algorithm) && ea.EncryptedKey.CipherValue == "" ==>
+//@        (err == nil <==> b64ok(ea.CipherValue) && UnwrapOK(&ea.DetEncryptedKey, cert) && GCMOK(ea, UnwrappedKey(&ea.DetEncryptedKey, cert)))
+//@        && (err == nil ==> out == GCMPlain(ea, UnwrappedKey(&ea.DetEncryptedKey, cert)))
+//@   ensures [C11] cbc.inline: IsCBC(ea.EncryptionMethod.Algorithm) && ea.EncryptedKey.CipherValue != "" ==>
+//@        (err == nil <==> b64ok(ea.CipherValue) && UnwrapOK(&ea.EncryptedKey, cert) && CBCOK(ea, UnwrappedKey(&ea.EncryptedKey, cert)))
+//@   ensures [C11] cbc.detached: IsCBC(ea.EncryptionMethod.Algorithm) && ea.EncryptedKey.CipherValue == "" ==>
+//@        (err == nil <==> b64ok(ea.CipherValue) && UnwrapOK(&ea.DetEncryptedKey, cert) && CBCOK(ea, UnwrappedKey(&ea.DetEncryptedKey, cert)))
+//@   ensures [C11] unknown: !IsGCM(ea.EncryptionMethod.Algorithm) && !IsCBC(ea.EncryptionMethod.Algorithm) ==> err != nil
 // CBC unpadding (xmlenc): the last byte is the pad length N, 1 <= N <= block size; exactly N bytes are removed and
 // nothing but an impossible pad length is rejected at that stage (so every residue of the plaintext length round-trips).
 //@   exit [C11] cbc.accept: IsCBC(ea.EncryptionMethod.Algorithm) && int(padLength) <= len(data) ==> err == nil
